@@ -43,19 +43,21 @@ func (k *KeyLog) Secrets() [][2]string {
 
 // Endpoint is the outcome of one side of a session.
 type Endpoint struct {
-	Conn     *gmtls.Conn
-	HSErr    error
-	Panic    *hx.PanicInfo
-	State    gmtls.ConnectionState
-	Received []byte
-	IOErr    error
-	WriteErr error
+	Conn      *gmtls.Conn
+	HSErr     error
+	Panic     *hx.PanicInfo
+	State     gmtls.ConnectionState
+	Received  []byte
+	IOErr     error
+	WriteErr  error
+	SawEOF    bool  // the read loop ended with io.EOF
+	SecondErr error // error of one more Read after the loop ended (stickiness)
 }
 
 // Result of a two-ended in-memory session.
 type Result struct {
 	Client, Server Endpoint
-	C2S, S2C       []byte // raw bytes on the wire per direction
+	C2S, S2C       []byte         // raw bytes on the wire per direction
 	Log            []rgmssl.Chunk // the same bytes in global order of transmission
 	Stalled        bool
 	Hub            *wire.Hub
@@ -102,6 +104,13 @@ func writeFrags(w io.Writer, data []byte, frags []int) error {
 // Run performs handshake + scripted data exchange between a gmtls client and a gmtls server
 // over an in-memory duplex. Never blocks forever: the hub turns global quiescence into EOF.
 func Run(ccfg, scfg *gmtls.Config, sc Script) *Result {
+	return RunInto(&Result{}, ccfg, scfg, sc)
+}
+
+// RunInto is Run with a caller-supplied Result, so that hooks installed by sc.Setup can look at the
+// traffic log while the session is still in progress (only from inside transport filters, which run
+// under the same lock as the taps that append to it).
+func RunInto(res *Result, ccfg, scfg *gmtls.Config, sc Script) *Result {
 	hub := wire.NewHub()
 	ca, sa := sc.ClientAddr, sc.ServerAddr
 	if ca == "" {
@@ -111,7 +120,7 @@ func Run(ccfg, scfg *gmtls.Config, sc Script) *Result {
 		sa = "server:443"
 	}
 	cw, sw := hub.Pipe(ca, sa)
-	res := &Result{Hub: hub}
+	res.Hub = hub
 	var mu sync.Mutex
 	cw.TapOut(func(b []byte) {
 		res.C2S = append(res.C2S, b...)
@@ -154,7 +163,10 @@ func Run(ccfg, scfg *gmtls.Config, sc Script) *Result {
 				if err != nil {
 					if err != io.EOF {
 						ep.IOErr = err
+					} else {
+						ep.SawEOF = true
 					}
+					_, ep.SecondErr = conn.Read(buf)
 					break
 				}
 			}
